@@ -4,7 +4,7 @@ from concurrent.futures import ThreadPoolExecutor
 from vlib import *
 
 TRACE_CFG = ['SPECIFICATION TraceSpec', 'CONSTRAINT Progress', 'POSTCONDITION TraceAccepted', 'CHECK_DEADLOCK FALSE']
-NJOBS = 11
+NJOBS = 13
 
 
 def sig_of(e):
